@@ -2,6 +2,7 @@ SPECIFICATION Spec
 CONSTANTS
   W = 4
   Anns = {"both", "size", "hash", "none"}
+  Devs = {"all"}
   Sizes = {0, 1, 2, 3, 4, 5, 6, 7, 9}
   MaxFaults = 1
   MaxInject = 1
